@@ -636,15 +636,23 @@ def subsample_rule(repo, rep):
                construct="inner scan test %s" % sorted(facts), detail="" if okc else "scan comparison is not times[i] <= report_times[j]")
         rep.ob("SUB", okb, "subsample: the scan stops at the last observation (final value is held)", func=f, node=inner[0],
                construct="inner bound", detail="" if okb else "bound on the observation index changed")
-        ib = [_k(s) for s in inner[0].body]
-        okv = ib == ["candidate=status1[%s]" % ob, "%s+=1" % ob]
+        ib = inner[0].body
+        okv = len(ib) == 2 and isinstance(ib[0], ast.Assign) and isinstance(ib[0].targets[0], ast.Name) \
+            and _k(ib[0].value) == "status1[%s]" % ob and _k(ib[1]) == "%s+=1" % ob
+        cand = ib[0].targets[0].id if okv else None
         rep.ob("SUB", okv, "subsample: the candidate is the value of the observation just passed", func=f, node=inner[0],
-               construct="inner body %s" % ib, detail="" if okv else "candidate update changed")
-        obody = [_k(s) for s in outer[0].body if not isinstance(s, ast.While)]
-        oko = obody == ["report_status1.append(candidate)", "%s+=1" % rp] and outer[0].body.index(inner[0]) == 0 \
+               construct="inner body %s" % [_k(x) for x in ib], detail="" if okv else "candidate update changed")
+        obody = [x for x in outer[0].body if not isinstance(x, ast.While)]
+        oko = okv and len(obody) == 2 and _append_of(obody[0]) is not None and _k(_append_of(obody[0])[1]) == cand \
+            and _k(obody[1]) == "%s+=1" % rp and outer[0].body.index(inner[0]) == 0 \
             and _k(outer[0].test) == "%s<len(report_times)" % rp
+        if oko:
+            # what is appended to is what is returned first (as an array)
+            recv = _k(_append_of(obody[0])[0])
+            oko = any(_k(n.value).replace("np.array(%s)" % recv, recv) == recv for n in ast.walk(f.node)
+                      if isinstance(n, ast.Assign) and isinstance(n.value, ast.Call) and _k(n.value.func) == "np.array")
         rep.ob("SUB", oko, "subsample: exactly one value per report time, in order", func=f, node=outer[0],
-               construct="outer loop %s" % obody, detail="" if oko else "outer loop changed")
+               construct="outer loop %s" % [_k(x) for x in obody], detail="" if oko else "outer loop changed")
         # the pointer is never reset: one pass
         resets = [n for n in ast.walk(outer[0]) if isinstance(n, ast.Assign) and _k(n.targets[0]) in (rp, ob)]
         rep.ob("SUB", not resets, "subsample: pointers only advance", func=f, node=resets[0] if resets else outer[0],
